@@ -171,6 +171,7 @@ type cfgOverride struct {
 	minTxnFee    currency.Coin
 	blockRewards bool
 	settingsPer  int64
+	batch        int // server_chain.block.validation.batch_size
 }
 
 func (c cfgOverride) IsFeeEnabled() bool                      { return c.feeOn }
@@ -180,6 +181,7 @@ func (c cfgOverride) MinBlockSize() int32                     { return c.minBloc
 func (c cfgOverride) MinTxnFee() currency.Coin                { return c.minTxnFee }
 func (c cfgOverride) IsBlockRewardsEnabled() bool             { return c.blockRewards }
 func (c cfgOverride) SmartContractSettingUpdatePeriod() int64 { return c.settingsPer }
+func (c cfgOverride) ValidationBatchSize() int                { return c.batch }
 func (c cfgOverride) BlockProposalMaxWaitTime() time.Duration { return time.Minute } // the deadline is an input of the property, not modelled
 
 // ---------------------------------------------------------------- process-wide setup
@@ -502,14 +504,26 @@ func transmit(b *block.Block) (*block.Block, error) {
 
 // verify runs the real VerifyBlock pipeline on the verifier chain (own state DB, own caches).
 func (w *world) verify(b *block.Block) (*block.Block, error) {
-	nb, err := transmit(b)
-	if err != nil {
-		return nil, fmt.Errorf("transmit: %v", err)
+	// The verification of a block runs under a deadline in the miner (the round moves on); a verifier that never
+	// answers is a failed verification. An honest block of this size verifies in milliseconds; a second, longer
+	// attempt guards against a loaded machine.
+	var nb *block.Block
+	var err error
+	for _, d := range []time.Duration{2 * time.Second, 5 * time.Second} {
+		nb, err = transmit(b)
+		if err != nil {
+			return nil, fmt.Errorf("transmit: %v", err)
+		}
+		md := datastore.GetEntityMetadata("txn")
+		ctx := memorystore.WithEntityConnection(context.Background(), md)
+		cctx, cancel := context.WithTimeout(ctx, d)
+		_, err = w.ver.mc.VerifyBlock(cctx, nb)
+		cancel()
+		memorystore.Close(ctx)
+		if err != context.DeadlineExceeded && err != context.Canceled {
+			break
+		}
 	}
-	md := datastore.GetEntityMetadata("txn")
-	ctx := memorystore.WithEntityConnection(context.Background(), md)
-	defer memorystore.Close(ctx)
-	_, err = w.ver.mc.VerifyBlock(ctx, nb)
 	return nb, err
 }
 
